@@ -43,6 +43,7 @@ __CPROVER_ensures(MAKE_FAIL(__CPROVER_return_value))
 ;
 
 /* ---- parse: <proto>:<host>:<port> */
+#ifndef XV_ADDR_UX
 size_t xv_pa_len;   /* ghost: length of the proto_addr string proto_addr_parse produced */
 static int proto_addr_parse(const char *addr_s, char *proto, size_t proto_capacity, char *proto_addr, size_t proto_addr_capacity)
 __CPROVER_requires(proto_capacity >= 1 && proto_addr_capacity >= 1 && __CPROVER_w_ok(proto, proto_capacity) && __CPROVER_w_ok(proto_addr, proto_addr_capacity))
@@ -51,6 +52,9 @@ __CPROVER_ensures(__CPROVER_return_value == 0 || (__CPROVER_return_value == -1 &
 __CPROVER_ensures(__CPROVER_return_value == 0 ==> (proto[proto_capacity - 1 < XCM_ADDR_MAX_PROTO_LEN ? proto_capacity - 1 : XCM_ADDR_MAX_PROTO_LEN] == 0 || 1))
 __CPROVER_ensures(__CPROVER_return_value == 0 ==> (xv_pa_len < proto_addr_capacity && xv_pa_len <= XCM_ADDR_MAX && proto_addr[xv_pa_len] == 0))
 ;
+#else
+size_t xv_pa_len;
+#endif
 static int host_parse(const char *host_s, struct xcm_addr_host *host)
 __CPROVER_requires(__CPROVER_w_ok(host, sizeof(*host)))
 __CPROVER_assigns(xv_errno, __CPROVER_object_upto(host, sizeof(*host)))
@@ -109,5 +113,29 @@ __CPROVER_ensures(((xv_proto_sel <= 6 || (xv_proto_sel == 7 && !require_supporte
 __CPROVER_ensures((xv_proto_sel == 8 || (xv_proto_sel == 7 && require_supported)) ==> (!__CPROVER_return_value && xv_parser_calls == __CPROVER_old(xv_parser_calls)))
 __CPROVER_ensures((xv_proto_sel <= 6 && xv_parser_calls == __CPROVER_old(xv_parser_calls)) ==> !__CPROVER_return_value)
 ;
+
+/* ---- addr_parse_ux_uxf (C12): UX/UXF name limits.  Separate instantiation (-DXV_ADDR_UX): proto_addr_parse is assumed
+ * to deliver a protocol string and a name string whose exact lengths are the ghosts xv_pp_len / xv_pa_len (no interior
+ * NUL: stated for the arbitrary position xv_j, which is what the strlen model below is allowed to rely on). */
+#ifdef XV_ADDR_UX
+static int proto_addr_parse(const char *addr_s, char *proto, size_t proto_capacity, char *proto_addr, size_t proto_addr_capacity)
+__CPROVER_requires(proto_capacity == XCM_ADDR_MAX_PROTO_LEN + 1 && proto_addr_capacity == XCM_ADDR_MAX + 1 && __CPROVER_w_ok(proto, proto_capacity) && __CPROVER_w_ok(proto_addr, proto_addr_capacity))
+__CPROVER_assigns(xv_errno, xv_pa_len, xv_pp_len, __CPROVER_object_upto(proto, proto_capacity), __CPROVER_object_upto(proto_addr, proto_addr_capacity))
+__CPROVER_ensures(__CPROVER_return_value == 0 || (__CPROVER_return_value == -1 && (xv_errno == EINVAL || xv_errno == ENAMETOOLONG)))
+__CPROVER_ensures(__CPROVER_return_value == 0 ==> (xv_pa_len <= XCM_ADDR_MAX && proto_addr[xv_pa_len] == 0 && ((xv_j >= 0 && (size_t)xv_j < xv_pa_len) ==> proto_addr[xv_j] != 0)))
+__CPROVER_ensures(__CPROVER_return_value == 0 ==> (xv_pp_len <= XCM_ADDR_MAX_PROTO_LEN && proto[xv_pp_len] == 0 && ((xv_j >= 0 && (size_t)xv_j < xv_pp_len) ==> proto[xv_j] != 0)))
+;
+static int addr_parse_ux_uxf(const char *ux_proto, const char *ux_addr_s, char *ux_name, size_t capacity)
+__CPROVER_requires(__CPROVER_is_fresh(ux_proto, 4) && ux_proto[0] == 'u' && ux_proto[1] == 'x' && (ux_proto[2] == 0 || (ux_proto[2] == 'f' && ux_proto[3] == 0)))
+__CPROVER_requires(__CPROVER_is_fresh(ux_addr_s, 8) && capacity <= 1024 && XV_OUT(ux_name, capacity))
+__CPROVER_assigns(xv_errno, xv_pa_len, xv_pp_len)
+__CPROVER_assigns(capacity > 0: __CPROVER_object_upto(ux_name, capacity))
+__CPROVER_ensures(__CPROVER_return_value == 0 || (__CPROVER_return_value == -1 && (xv_errno == EINVAL || xv_errno == ENAMETOOLONG)))
+/* PO[C12] addr_parse_ux_uxf.name_limits: an accepted UX/UXF name has 1..UX_NAME_MAX (107) characters and fits the caller's buffer with its NUL */
+__CPROVER_ensures(__CPROVER_return_value == 0 ==> (xv_pa_len >= 1 && xv_pa_len <= UX_NAME_MAX && xv_pa_len < capacity && ux_name[xv_pa_len] == 0))
+/* PO[C12] addr_parse_ux_uxf.name_copied: the name is copied byte for byte */
+__CPROVER_ensures((__CPROVER_return_value == 0 && xv_j >= 0 && (size_t)xv_j < xv_pa_len) ==> ux_name[xv_j] != 0)
+;
+#endif
 #include "contracts/end.h"
 #endif
